@@ -78,7 +78,27 @@ func runC18(c *Ctx) {
 		return false
 	})
 
-	// ---- R8 predicate truth table
+	// ---- R8 the gate answers from the tables alone. An entry that is banned stays refused until
+	// the sweep has removed it (and with it the old score): a gate that lets a peer in by the
+	// clock while the entry is still there makes the next small penalty add to the old score —
+	// the peer is banned again for a full period instead of starting from a clean score.
+	{
+		var clock []ssa.CallInstruction
+		for _, call := range AllCallsDeep(allowed) {
+			n := CalleeName(call.Common())
+			if n == "time.Now" || n == "time.Since" || n == "time.Until" {
+				clock = append(clock, call)
+			}
+		}
+		site := p.Pos(allowed.Pos())
+		if len(clock) > 0 {
+			site = p.InstrPos(clock[0])
+		}
+		c.Require("C18.R8 gate-answers-from-the-tables", FuncKey(allowed), site, "the connection predicate consults only the blacklist and the score table (expiry is applied by the sweep, which also clears the score)", len(clock) == 0, fmt.Sprintf("%d clock reads", len(clock)))
+		if len(clock) > 0 {
+			goto afterR8
+		}
+	}
 	{
 		k := func(e *Env) (bool, string) {
 			r := &pathRun{env: e, special: func(v ssa.Value, eval func(ssa.Value) AVal) (AVal, bool) {
@@ -115,6 +135,7 @@ func runC18(c *Ctx) {
 		}
 	}
 
+afterR8:
 	// ---- R12 one key function for the score/blacklist maps (writers and readers must agree)
 	{
 		n := 0
